@@ -1,4 +1,12 @@
 import NbioVerif.Properties.C13
+#print axioms Ws.c13_partial
+#print axioms Ws.hdrCheck_strict
+#print axioms Ws.run_strict
+#print axioms Ws.c13_masked
+#print axioms Ws.c13_mask_counterexample
+#print axioms Ws.c13_ping_pong
+#print axioms Ws.c13_close_close
+#print axioms Ws.c13_decoder
 #print axioms Ws.c13_validFrame_table
 #print axioms Ws.c13_frame_rfc
 #print axioms Ws.c13_closeCode_table
